@@ -17,6 +17,12 @@
   Part 3 (`*_naming`, `*_member_lookup`, `fragment_*`): class naming (`helper/naming.py`), the by-name member lookup of enums
   and the regex post-processing of rendered fragments (`PatternParser`).
 
+  Part 5 (`view_*`): the C++ view helpers that take rendered type names, base-class names and argument texts apart
+  (`CppViewHelper.VarType.annotated`, `Param.var_type_origin`, `SuperInitializer.parse`; Model/ViewHelper.lean) decide by WHOLE
+  names. Part 6 (`name_sites_*`): the GENERATED table of every comparison of a user-controlled name with words py2cpp.py spells
+  out itself (translate/gen_c08_names.py, Generated/C08Names.lean): each member-name comparison a user class can reach
+  (`items`, `pop`, `on`, `value`, …) is tied to the TYPE of the receiver by a guard.
+
   Part 4 (`regex_*`, `site_table_*`): the regular expressions of `PatternParser` / `CppViewHelper` and the table of comparison sites
   are GENERATED from the source on every run (translate/gen_c08_regex.py, translate/gen_c08_sites.py: Generated/C08Regex.lean,
   Generated/C08Sites.lean; a new, changed or vanished site or an unknown regex opcode makes the translator fail = broken tie).
@@ -70,8 +76,10 @@ import Tranp.Lemmas.ScopeStr
 import Tranp.Lemmas.Naming
 import Tranp.Lemmas.Fragment
 import Tranp.Lemmas.Regex
+import Tranp.Lemmas.ViewHelper
 import Tranp.Generated.C08Regex
 import Tranp.Generated.C08Sites
+import Tranp.Generated.C08Names
 
 namespace Tranp.C08
 open Tranp Tranp.Scope
@@ -533,6 +541,88 @@ example :
       ⟨"rogw/tranp/implements/cpp/view/cpp_view_helper.py", "CppViewHelper.Param.var_type_origin", "str.startswith", "self.var_type.startswith('const')", .defect⟩,
       ⟨"rogw/tranp/implements/cpp/view/cpp_view_helper.py", "CppViewHelper.VarType.annotated", "str.startswith", "var_type.startswith('const')", .defect⟩]
     (old.filter (fun s => s.verdict = .defect)).length = 2 := by
+  decide +kernel
+
+/-! ## Part 5: the C++ view helpers decide by whole names (cpp_view_helper.py) -/
+
+open Tranp.ViewHelper in
+/-- `VarType.annotated('<type name><rest>', annotations, immutable_types)` for every rendered type name (`Box`, `Box::Item`,
+    `constant`, `std::vector`) followed by anything that does not continue the name (`<int>`, `*`, `&`, blank, nothing):
+    unchanged under `Embed::mutable`; `const …&` / `const …*` under `Embed::immutable` or when the WHOLE name is listed as an
+    immutable type; unchanged otherwise. The spelling of the name enters through list membership only — in particular a name
+    that merely begins with `const` is not taken for a qualified type (the defect repaired in 448468e). -/
+theorem view_annotated_whole_name (ty rest : Str) (annos imm : List Str) (hty : TypeName ty) (hrest : Stops rest)
+    (hc : ty ≠ ['c','o','n','s','t'] ∨ rest.head? ≠ some ' ') :
+    annotated (ty ++ rest) annos imm = .ok (
+      if annos.contains annoMutable then ty ++ rest
+      else if annos.contains annoImmutable || imm.contains ty then toImmutable (ty ++ rest)
+      else ty ++ rest) :=
+  annotated_typeName ty rest annos imm hty hrest hc
+
+open Tranp.ViewHelper in
+/-- REGRESSION (fixed 448468e): with the qualifier test written without its blank, the class `constant` annotated
+    `Embed::immutable` keeps its by-value type. -/
+theorem view_annotated_const_prefix_counterexample :
+    ¬ ∀ (vt : Str) (annos imm : List Str), annotatedBroken vt annos imm = annotated vt annos imm := by
+  intro h
+  have h1 := h ['c','o','n','s','t','a','n','t'] [annoImmutable] []
+  revert h1
+  decide +kernel
+
+open Tranp.ViewHelper in
+/-- `Param.var_type_origin`: the base type of `<name>`, `<name><…>`, `<name>…*`, `<name>…&` and of `const <name>…` is the
+    whole type name, for every type name other than the word `const` itself. -/
+theorem view_var_type_origin (ty rest : Str) (hty : TypeName ty) (hc : ty ≠ ['c','o','n','s','t'])
+    (hrest : rest = [] ∨ rest.head? = some '<' ∨ (Stops rest ∧ endsWithRefOrPtr (ty ++ rest) = true)) :
+    varTypeOrigin (ty ++ rest) = .ok ty ∧
+    (Stops rest → varTypeOrigin (constBlank ++ ty ++ rest) = .ok ty) :=
+  ⟨varTypeOrigin_typeName ty rest hty hc hrest, fun hs => varTypeOrigin_const ty rest hty hs⟩
+
+open Tranp.ViewHelper Tranp.Fragment in
+/-- `SuperInitializer.parse('<Base>::__init__(<args>);')` = (`Base`, `args`) for every identifier `Base` and every argument text
+    without `;` — the base-class name is returned verbatim, whatever it is spelled like. -/
+theorem view_super_initializer (base args : Str) (hb : Word base) (ha : ';' ∉ args) :
+    superInitParse (base ++ superCallMid ++ args ++ [')', ';']) = .ok (base, args) :=
+  superInitParse_wf base args hb ha
+
+open Tranp.ViewHelper Tranp.Fragment in
+/-- non-vacuity: `constant` and `Box::Item` are type names, `<int>&` stops them; the three helpers on concrete texts, and the
+    hand-written scanners agree there with the compositions over the generated patterns -/
+example :
+    TypeName ['c','o','n','s','t','a','n','t'] ∧ TypeName ['B','o','x',':',':','I','t','e','m'] ∧ Stops ['<','i','n','t','>','&'] ∧
+    annotated ['c','o','n','s','t','a','n','t'] [annoImmutable] [] = .ok ['c','o','n','s','t',' ','c','o','n','s','t','a','n','t','&'] ∧
+    Gen.annotated ['c','o','n','s','t','a','n','t'] [annoImmutable] [] = annotated ['c','o','n','s','t','a','n','t'] [annoImmutable] [] ∧
+    varTypeOrigin ['c','o','n','s','t',' ','B','o','x','<','i','n','t','>','&'] = .ok ['B','o','x'] ∧
+    Gen.varTypeOrigin ['c','o','n','s','t',' ','B','o','x','<','i','n','t','>','&'] = .ok ['B','o','x'] ∧
+    Word ['B','a','s','e','_','2'] ∧
+    superInitParse (['B','a','s','e','_','2'] ++ superCallMid ++ ['a',',',' ','b'] ++ [')', ';']) = .ok (['B','a','s','e','_','2'], ['a',',',' ','b']) ∧
+    Gen.superInitParse (['B','a','s','e','_','2'] ++ superCallMid ++ ['a',',',' ','b'] ++ [')', ';']) = .ok (['B','a','s','e','_','2'], ['a',',',' ','b']) := by
+  decide +kernel
+
+/-! ## Part 6: every member-name comparison of py2cpp.py is tied to the receiver's type (generated table) -/
+
+/-- a word a user class may give to one of its members (dunder names are reserved) -/
+def userWord (w : Str) : Bool := !(w.take 2 == ['_', '_'])
+
+open Tranp.Generated.C08Names in
+/-- **name_sites_guarded**: in the table generated from py2cpp.py on this run, every comparison of a MEMBER name (`….prop.tokens`,
+    `….prop.domain_name`) with constant words of which at least one can be the name of a user member (`items`, `keys`, `values`,
+    `pop`, `copy`, `sort`, `split`, `on`, `raw`, `name`, `value`, …) stands under a type guard — `type_is`, `cvars.contains`,
+    `cvars.equals`, `isinstance(<x>.types, …)` or a predicate of Py2Cpp that is itself such a site. A user class that happens to
+    use one of these spellings is therefore treated like any other class; dropping a guard (a seeded mutation: `for … in
+    bag.items()` of a user class rendered as a dict iteration) makes this theorem false. -/
+theorem name_sites_guarded :
+    ∀ s ∈ sites, s.role = .member → s.dynamic = false → s.words.any userWord = true → s.guards ≠ [] := by
+  decide +kernel
+
+open Tranp.Generated.C08Names in
+/-- non-vacuity: the table has member sites with user words (the `for` statement over `items / keys / values`) and sites that
+    compare with reserved words only (`__init__`) -/
+example :
+    (sites.filter (fun s => s.role = .member && s.words.any userWord)).length ≥ 10 ∧
+    (sites.filter (fun s => s.fn = "on_for" && s.role = .member)).map (fun s => (s.words, s.guards)) =
+      [([['i','t','e','m','s'], ['k','e','y','s'], ['v','a','l','u','e','s']], ["type_is"])] ∧
+    (sites.filter (fun s => s.role = .member && !s.words.any userWord)).length ≥ 1 := by
   decide +kernel
 
 end Tranp.C08
